@@ -52,7 +52,7 @@ add("C06", "other",
     "banks also get_frequency_response: documented length with and without half, the triangle at every bin, the real bank's full response "
     "Hermitian-symmetric with the triangle on its leading bins (so half=True is a prefix of it), the analytic bank zero above the Nyquist bin. "
     "For the Gabor bank the documented length of get_frequency_response (with and without half), index safety of its stores and the start bin / "
-    "shape of get_truncated_response are proved, the values are not. "
+    "shape of get_truncated_response (also for the gammatone bank) are proved, the values are not. "
     "The 2 x threshold clause for Gabor / gammatone, the half / full / Hermitian clauses of the other banks, reuse of one bank object across "
     "requests and boundary-valued frequency ranges are bounded." + MIX, TB)
 add("C07", "other",
